@@ -155,6 +155,10 @@ theorem entry_applyCall (r r' : Req) (c : Call) (n : Bytes) (h : applyCall r c =
     simp only [applyCall, setBody] at h
     injection h with h; subst h
     simp only [entry_copyContentType, stepName, explicitFor, bodyOf]
+  | bodyReader b =>
+    simp only [applyCall, setBody] at h
+    injection h with h; subst h
+    simp only [entry_copyContentType, stepName, explicitFor, bodyOf, BodyKind.mime]
   | query u =>
     simp only [applyCall] at h
     injection h with h; subst h
@@ -201,6 +205,9 @@ theorem keysLower_applyCall (r r' : Req) (c : Call) (h : applyCall r c = some r'
   | bodyForm ps =>
     simp only [applyCall, setBody] at h; injection h with h; subst h
     exact keysLower_copyContentType _ _ hl
+  | bodyReader b =>
+    simp only [applyCall, setBody] at h; injection h with h; subst h
+    exact keysLower_copyContentType _ _ hl
   | query u =>
     simp only [applyCall] at h; injection h with h; subst h; exact hl
 
@@ -209,6 +216,7 @@ theorem foldCalls_spec (cs : List Call) : ∀ (r r' : Req), foldCalls r cs = som
     r'.method = r.method ∧
     r'.url = (lastQuery cs).getD r.url ∧
     r'.body = ((lastBody cs).map (·.2)).getD r.body ∧
+    r'.lenKnown = (match lastBody cs with | none => r.lenKnown | some _ => !lastBodyIsReader cs) ∧
     (KeysLower r.headers → KeysLower r'.headers) ∧
     ∀ n, entry r'.headers n = cs.foldl (stepName n) (entry r.headers n) := by
   induction cs with
@@ -223,8 +231,8 @@ theorem foldCalls_spec (cs : List Call) : ∀ (r r' : Req), foldCalls r cs = som
     | none => simp [h1] at h
     | some r1 =>
       simp only [h1] at h
-      obtain ⟨hm, hu, hb, hk, he⟩ := ih r1 r' h
-      refine ⟨?_, ?_, ?_, ?_, ?_⟩
+      obtain ⟨hm, hu, hb, hlk, hk, he⟩ := ih r1 r' h
+      refine ⟨?_, ?_, ?_, ?_, ?_, ?_⟩
       · rw [hm]; cases c <;> simp only [applyCall, setBody] at h1 <;> (try split at h1) <;>
           (try cases h1) <;> rfl
       · rw [hu]; simp only [lastQuery]
@@ -239,6 +247,12 @@ theorem foldCalls_spec (cs : List Call) : ∀ (r r' : Req), foldCalls r cs = som
         | none =>
           cases c <;> simp only [applyCall, setBody] at h1 <;> (try split at h1) <;>
             (try cases h1) <;> simp [bodyOf]
+      · rw [hlk]; simp only [lastBody, lastBodyIsReader]
+        cases hq : lastBody cs with
+        | some u => simp
+        | none =>
+          cases c <;> simp only [applyCall, setBody] at h1 <;> (try split at h1) <;>
+            (try cases h1) <;> simp [bodyOf, isReader]
       · intro hl; exact hk (keysLower_applyCall r r1 c h1 hl)
       · intro n; rw [he n, entry_applyCall r r1 c n h1]; rfl
 
@@ -320,6 +334,18 @@ theorem foldCalls_none_of_not_inDomain (cs : List Call) : ∀ r : Req, inDomain 
         have := h1.1.2 x hx
         simp [hx'] at this
       · simpa [inDomain] using h
+
+theorem lastBodyIsReader_of_none (cs : List Call) (h : lastBody cs = none) : lastBodyIsReader cs = false := by
+  cases cs with
+  | nil => rfl
+  | cons c cs =>
+    simp only [lastBody] at h
+    simp only [lastBodyIsReader]
+    cases hl : lastBody cs with
+    | some x => simp [hl] at h
+    | none =>
+      simp only [hl] at h
+      cases c <;> simp [bodyOf] at h <;> rfl
 
 theorem documentedMime_eq (k : BodyKind) : documentedMime k = k.mime := by cases k <;> decide
 
